@@ -36,6 +36,13 @@ CHECKS = {
 		note='Axioms are checked on the values returned by gambit.metric.jaccarddist; exactness of each value is C02. Strict decrease asserted only for |AuB| < 2^11 where the exact decrease exceeds binary32 resolution.',
 		design='DESIGN.md §4 C15',
 	),
+	'C20': dict(
+		category='exploration',
+		technique='exhaustive index expressions (n<=4/6) over 3 container types + Hypothesis-generated expressions, equality pairs and list-mutation histories vs a Python list model',
+		text='Every int index, slice (all start/stop/step over a small range incl. step 0), index list of length <=3 and boolean mask is evaluated on SignatureArray, SignatureList and file-backed HDF5Signatures of length 0..4 (quick) / 0..6 (thorough) and compared with what a plain list of the arrays gives (selection, error class, k-mer spec, dtype, caller index array unmodified); longer collections, ill-typed indices, cross-container equality pairs and 50-step SignatureList mutation histories (model-based) are generated.',
+		note='Oracle is a Python list; view/copy semantics are not asserted. A Python bool as scalar index is excluded (list and NumPy semantics disagree). Two genuine defects found and repaired (see KNOWN_FINDINGS.txt).',
+		design='DESIGN.md §4 C20',
+	),
 }
 
 NOT_APPLICABLE = {}
